@@ -61,6 +61,25 @@ func (r *Result) Add(k string, n int64) {
 	r.Counts[k] += n
 }
 
+// AddViolation records v, classifying it against the open known findings of
+// the property; it reports whether v is a known finding (exploration may then
+// continue). One representative per known finding is kept per job.
+func (r *Result) AddViolation(property string, v Viol) bool {
+	if id := MatchFinding(LoadFindings(property), &v); id != "" {
+		v.Known = id
+		r.Add("known_hits", 1)
+		for _, o := range r.Violations {
+			if o.Known == id {
+				return true
+			}
+		}
+		r.Violations = append(r.Violations, v)
+		return true
+	}
+	r.Violations = append(r.Violations, v)
+	return false
+}
+
 func (r *Result) Outcome(sig string) {
 	if r.Outcomes == nil {
 		r.Outcomes = map[string]int64{}
@@ -138,7 +157,18 @@ func VerifDir() string {
 	return "/verif"
 }
 
+var findingsCache = map[string][]Finding{}
+
 func LoadFindings(property string) []Finding {
+	if f, ok := findingsCache[property]; ok {
+		return f
+	}
+	f := loadFindings(property)
+	findingsCache[property] = f
+	return f
+}
+
+func loadFindings(property string) []Finding {
 	b, err := os.ReadFile(filepath.Join(VerifDir(), "KNOWN_FINDINGS.json"))
 	if err != nil {
 		return nil
